@@ -684,8 +684,9 @@ fn fixture_cases(tier: Tier) -> Vec<Case> {
             }
         }
         // split into cases of at most 600 queries, recording the answers of this (generation-time) run
-        let threads = if tier == Tier::Thorough { 8 } else { 0 };
         for (k, chunk) in queries.chunks(600).enumerate() {
+            // quick: the first chunk of every fixture is also looked up from 4 threads sharing the map
+            let threads = if tier == Tier::Thorough { 8 } else if k == 0 { 4 } else { 0 };
             let reload = || load_map(bytes.clone(), &path).ok();
             let Some(fresh) = reload() else { continue };
             let recorded = fixture_answers(fresh, &reload, tag, chunk, 0, 1, &mut stats);
@@ -1213,6 +1214,8 @@ impl Prop for C05 {
         };
         if tier == Tier::Thorough && index % 4 == 0 {
             ops.insert(1, "threads 8".to_string());
+        } else if tier == Tier::Quick && index % 6 == 0 {
+            ops.insert(1, "threads 4".to_string());
         }
         ops
     }
